@@ -486,6 +486,11 @@ def run(ctx, rep):
             f(ctx, rep)
         except Unsupported as u:
             rep.undecided(rule, f.__name__, f"line {getattr(u.node, 'lineno', 0)}", str(u))
+    # the precision matrix that was published for a state stays the matrix of that state (the block update holds the one of the current state while it asks for the one of the
+    # proposed state): C11.M rule on the GMRF modules
+    from props import c11
+    from sa.report import RuleProxy as _RPb
+    c11.check_handed_out_buffers(ctx, _RPb(rep, 'C20.Q', 'published::'), only=lambda m: m.name in (GM, GI))
     # the closed-form constants are computed at the precision of the heights: hyper-parameters given as Python numbers stay Python numbers (math.log / math.lgamma) or become
     # tensors with an explicit dtype, never default-precision tensors that other methods compute with
     from sa import dtypes
